@@ -1,7 +1,7 @@
 (* C10 — concurrent requests are race-free, serialisable, and see immutable snapshots. *)
 From Coq Require Import Permutation.
 From VP Require Import Base Nonce NonceProofs Store StoreProofs Pool PoolProofs BalanceProofs Conc ConcProofs
-                       SerialProofs Snapshot SnapshotProofs.
+                       SerialProofs Snapshot SnapshotProofs Locks LocksProofs.
 From VPgen Require Import Facts.
 
 (* (a) every store operation is atomic: the in-memory driver takes its mutex before touching any
@@ -49,6 +49,30 @@ Theorem c10_serialisable_refuted_without_node_lock :
   sx_host_credit (sched_of [0; 1; 0; 1; 0; 1; 0; 1; 0; 1; 0; 1]%nat 61) = 2016.
 Proof. exact serialisable_refuted. Qed.
 Print Assumptions c10_serialisable_refuted_without_node_lock.
+
+(* ... and the per-node lock itself: the keep-alives of one node go through a lock looked up (or
+   created) in a map under the pool mutex and never removed from it (structural facts regenerated
+   from pool/service.go on every run); for that bookkeeping, whatever the number of overlapping
+   requests and the order of their lookups, acquisitions and releases, two keep-alives of one node
+   are never inside the critical section together, and a waiting one gets in once it is free.  The
+   variant that removes the map entry on release lets a third request in beside the second (and
+   no schedule of only two requests shows it). *)
+Theorem c10_update_lock_as_modelled :
+  update_lock_map_deletes = 0 /\ update_lock_lookup_shape = true /\ update_takes_lock_first = true.
+Proof. vm_compute. auto. Qed.
+Theorem c10_per_node_mutual_exclusion : forall ops t1 t2,
+  holding (lrun false lst0 ops) t1 = true -> holding (lrun false lst0 ops) t2 = true -> t1 = t2.
+Proof. exact keyed_lock_mutual_exclusion. Qed.
+Print Assumptions c10_per_node_mutual_exclusion.
+Theorem c10_per_node_lock_progress : forall ops t m,
+  let s := lrun false lst0 ops in
+  phase_of s t = TRef m -> (forall t', holding s t' = false) ->
+  exists s', lstep false s (SLock t) = Some s' /\ holding s' t = true.
+Proof. exact keyed_lock_progress. Qed.
+Theorem c10_lock_entry_removal_refuted :
+  holders (lrun true lst0 chain3) = [2; 3]%N /\ holders (lrun false lst0 chain3) = [2]%N /\
+  forallb (prefixes_ok true lst0) (schedules 7) = true.
+Proof. split; [apply deleting_variant_refuted|split; [apply deleting_variant_refuted|exact deleting_variant_two_requests_ok]]. Qed.
 
 (* (d) a value handed out is a snapshot that later operations never alter (fresh-cell updates) *)
 Theorem c10_snapshot_stable : forall pre k r post,
